@@ -301,10 +301,11 @@ Fixpoint expf (r : nat) (p : pc) : nat :=
   | _ => 0
   end.
 
-Definition refn (s : state) (r : nat) : nat := if N.eqb (rref s r) 0 then 0 else 1.
+Definition refn1 (x : runner) : nat := if N.eqb (r_ref x) 0 then 0 else 1.
+Definition ra (x : runner) : nat := refn1 x + armedn x.
 
 Definition reason (s : state) (r : nat) : nat :=
-  refn s r + getd armedn (runners s) r + occ r (expq s) + cnt (expf r) (thr s).
+  getd ra (runners s) r + occ r (expq s) + cnt (expf r) (thr s).
 
 Definition I_id (s : state) : Prop :=
   forall r, rclosed s r = false -> cnt (freshr r) (thr s) = 0 -> 1 <= reason s r.
@@ -312,13 +313,13 @@ Definition I_id (s : state) : Prop :=
 Lemma wake_expf r t' p : expf r (wake t' p) = expf r p.
 Proof. destruct p; simpl; auto; destruct (Z.leb u t'); reflexivity. Qed.
 
-Lemma fire_expf_armed r : forall rs i t',
-  i <= r -> getd armedn rs (r - i) <= getd armedn (fst (fire rs i t')) (r - i) + cnt (expf r) (snd (fire rs i t')).
+Lemma fire_expf_ra r : forall rs i t',
+  i <= r -> getd ra rs (r - i) <= getd ra (fst (fire rs i t')) (r - i) + cnt (expf r) (snd (fire rs i t')).
 Proof.
   induction rs as [|x tl IH]; intros i t' Hi; simpl; [lia|].
   specialize (IH (S i) t'). destruct (fire tl (S i) t') as [tl' ps] eqn:E. simpl in IH.
   destruct (Nat.eq_dec i r) as [->|N].
-  - rewrite Nat.sub_diag. unfold getd, armedn. simpl.
+  - rewrite Nat.sub_diag. unfold getd, ra, refn1, armedn. simpl.
     destruct (r_tm x) as [|[dl|]|] eqn:T; simpl; try rewrite T; try lia.
     destruct (Z.leb dl t'); simpl; try rewrite T; lia.
   - assert (Hs : r - i = S (r - S i)) by lia. rewrite Hs. unfold getd in *. simpl.
@@ -342,9 +343,15 @@ Ltac id_sums r Ep :=
   repeat (erewrite getd_upd by eassumption); rewrite ?getd_snoc;
   repeat (erewrite getf_upd by eassumption); rewrite ?getf_snoc.
 
+Ltac split_r r :=
+  repeat match goal with
+  | H : context [Nat.eqb ?a r] |- _ => is_var a; let Q := fresh "Q" in destruct (Nat.eqb a r) eqn:Q; [apply Nat.eqb_eq in Q; subst a|]
+  | |- context [Nat.eqb ?a r] => is_var a; let Q := fresh "Q" in destruct (Nat.eqb a r) eqn:Q; [apply Nat.eqb_eq in Q; subst a|]
+  end.
+
 Lemma I_id_step : I_id s'.
 Proof.
-  unfold I_id, reason, refn, rref, rclosed in *. fix_cfg c Hf. intros r Hc Hfr.
+  unfold I_id, reason, rclosed in *. fix_cfg c Hf. intros r Hc Hfr.
   destruct l as [sp|q0|m|d|t alt].
   - step_cases H; simpl in *; apply I; auto.
   - step_cases H; simpl in *; apply I; auto.
@@ -353,22 +360,69 @@ Proof.
   - step_cases H. rewrite tick_runners, tick_thr, !cnt_app in *.
     rewrite wake_cnt in * by (intros; first [apply wake_expf | apply wake_freshr]).
     rewrite (fire_pcs_zero (freshr r)) in Hfr by reflexivity. rewrite Nat.add_0_r in Hfr.
-    rewrite (fire_getf r_closed true) in Hc by reflexivity. rewrite (fire_getf r_ref 0%N) by reflexivity.
+    rewrite (fire_getf r_closed true) in Hc by reflexivity.
     specialize (I r Hc Hfr).
-    pose proof (fire_expf_armed r (runners s) 0 (now s + d)%Z ltac:(lia)) as Fa. rewrite Nat.sub_0_r in Fa.
+    pose proof (fire_expf_ra r (runners s) 0 (now s + d)%Z ltac:(lia)) as Fa. rewrite Nat.sub_0_r in Fa.
     unfold tick. destruct (fire (runners s) 0 (now s + d)%Z). simpl in *. lia.
   - unfold step in H. destruct (nth_error (thr s) t) as [p|] eqn:Ep; try discriminate.
     pose proof (cnt_ge (expf r) _ _ _ Ep) as GeE. pose proof (cnt_ge (freshr r) _ _ _ Ep) as GeF.
     destruct p; step_cases H; simpl in *; unfold getq, getr in *;
-    try (revert Hc Hfr; id_sums r Ep; unfold freshr in *; simpl in *; unfold eqn in *; intros Hc Hfr;
-         eqb_cases; simpl in *; use_nth; simpl in *; try discriminate; try lia;
-         (assert (Hc0 : getf r_closed true (runners s) r = false) by (unfold getf; use_nth; auto; try congruence));
-         (assert (Hf0 : cnt (freshr r) (thr s) = 0) by (unfold freshr, eqn in *; lia));
-         specialize (I r Hc0 Hf0); unfold getf, getd, armedn, occ in *; use_nth; simpl in *;
-         repeat match goal with E : expq s = _ |- _ => rewrite E in I; simpl in I end; unfold eqn in *; eqb_cases;
-         repeat match goal with |- context [N.eqb ?a ?b] => destruct (N.eqb a b) eqn:? | H : context [N.eqb ?a ?b] |- _ => destruct (N.eqb a b) eqn:? end;
-         repeat match goal with |- context [match r_tm ?x with _ => _ end] => destruct (r_tm x) eqn:? | H : context [match r_tm ?x with _ => _ end] |- _ => destruct (r_tm x) eqn:? end;
-         simpl in *; try lia; fail).
+    revert Hc Hfr; id_sums r Ep; simpl; intros Hc Hfr;
+    (* rules that do not touch runners or the expired queue *)
+    try (unfold freshr in *; simpl in *; specialize (I r Hc ltac:(unfold eqn in *; lia)); unfold occ in I; unfold eqn in *; lia).
+    all: try (match goal with
+              | |- context [cnt (expf ?rr) _] =>
+                match goal with
+                | |- context [if Nat.eqb ?r0 rr then _ else _] =>
+                    is_var r0; destruct (Nat.eqb r0 rr) eqn:Q; [apply Nat.eqb_eq in Q; subst r0|]
+                end
+              end).
+    all: unfold freshr in *; simpl in Hc, Hfr |- *.
+    (* the runner that the step touches is another one *)
+    all: try (match goal with |- context [cnt (expf ?rr) _] =>
+              specialize (I rr Hc ltac:(unfold eqn in *; rewrite ?Q in *; lia)); unfold occ in I; unfold eqn in *; rewrite ?Q in *; simpl in *; lia end).
+    (* the step touches r itself *)
+    all: try (match goal with |- context [cnt (expf ?rr) _] =>
+      match goal with E : nth_error (runners s) rr = Some ?x |- _ =>
+        assert (Hc0 : getf r_closed true (runners s) rr = false) by (erewrite getf_some by exact E; exact Hc);
+        assert (Hf0 : cnt (freshr rr) (thr s) = 0) by (unfold freshr, eqn in *; rewrite ?Nat.eqb_refl in *; lia);
+        pose proof (I rr Hc0 Hf0) as I0; unfold occ, getd in I0; rewrite E in I0;
+        unfold ra, refn1, armedn in *; simpl in *; unfold eqn in *; rewrite ?Nat.eqb_refl in *;
+        repeat match goal with E2 : N.eqb _ 0 = _ |- _ => rewrite E2 in * end;
+        repeat match goal with E2 : N.ltb 0 _ = false |- _ => apply N.ltb_ge in E2 end;
+        simpl in *; try lia;
+        destruct (r_tm x); simpl in *; try lia;
+        destruct (N.eqb (r_ref x) 0) eqn:RZ; simpl in *; try lia
+      end end).
+    (* PUse: refCount becomes positive *)
+    all: try (match goal with |- context [N.eqb (N.succ ?n) 0] =>
+              replace (N.eqb (N.succ n) 0) with false by (symmetry; apply N.eqb_neq; lia) end; lia).
+    (* PNs: the new runner is fresh *)
+    1,2: destruct (Nat.eqb r (length (runners s))) eqn:Q;
+      [ apply Nat.eqb_eq in Q; subst r; unfold eqn in Hfr; rewrite Nat.eqb_refl in Hfr; lia
+      | unfold eqn in Hfr; rewrite Nat.eqb_sym, Q in Hfr; specialize (I r Hc ltac:(unfold eqn in *; lia)); unfold occ in I; lia ].
+    1: { (* PLd2: the registered runner holds the load's reference *)
+      destruct (l3_fresh s I3 _ _ _ _ Ep eq_refl) as (_ & _ & R1). unfold rref in R1.
+      rewrite (getf_some _ _ _ _ _ E) in R1. unfold ra, refn1. simpl. rewrite R1. simpl. lia. }
+    1: { (* CE2, stale event: it is not for a registered runner *)
+      destruct (Nat.eqb r0 r) eqn:Q.
+      - apply Nat.eqb_eq in Q; subst r0. exfalso.
+        destruct (l2_live s I2 r Hc) as [(m & M1 & M2)|Fz]; [|unfold freshr in Fz; lia].
+        unfold stale in E3. unfold rmodel in M1. rewrite (getf_some _ _ _ _ _ E) in M1. inv M1.
+        rewrite M2 in E3. rewrite Nat.eqb_refl in E3. discriminate.
+      - specialize (I r Hc ltac:(lia)). unfold occ in I. unfold eqn in *. rewrite Q in *. lia. }
+    (* CEV: the runner is (or already was) shut down, so the premise does not hold for it *)
+    all: try congruence.
+    all: simpl in Hc; discriminate.
 Qed.
 
 End StepID.
+
+Lemma I_id_Reach c s ev : fixed c -> Reach c s ev -> I_id s.
+Proof.
+  intros Hf R. induction R as [m|s ev l s' e R IH Hs].
+  - intros r Hc. unfold rclosed, getf in Hc. simpl in Hc. destruct r; discriminate.
+  - destruct (I_locks_Reach _ _ _ Hf R) as (_ & _ & C). eapply I_id_step; eauto.
+    + eapply L2_Reach; eauto.
+    + eapply L3_Reach; eauto.
+Qed.
